@@ -886,7 +886,18 @@ class Interp(ExprMixin):
             st.env[t.id] = v
         elif isinstance(t, (ast.Tuple, ast.List)):
             n = len(t.elts)
-            if isinstance(v, Tup) and len(v) == n:
+            star = [i for i, e in enumerate(t.elts) if isinstance(e, ast.Starred)]
+            if len(star) == 1:
+                # a, *rest, z = v
+                k, after = star[0], n - star[0] - 1
+                if isinstance(v, Tup) and len(v) >= n - 1:
+                    items = list(v.items[:k]) + [Tup(v.items[k:len(v) - after], 'list')] + list(v.items[len(v) - after:])
+                else:
+                    pv = P(v)
+                    items = [nf.index(pv, Poly.const(i)) for i in range(k)] + \
+                            [nf.index(pv, Slice(Poly.const(k), Poly.const(-after) if after else NONE))] + \
+                            [nf.index(pv, Poly.const(-j)) for j in range(after, 0, -1)]
+            elif isinstance(v, Tup) and len(v) == n:
                 items = v.items
             else:
                 pv = P(v)
